@@ -162,7 +162,52 @@ def extrapolation_modes():
     return "; ".join(bad[:4]) if bad else None
 
 
-TABLE = {"against_reference_splines": against_reference_splines, "both_formulas_agree": both_formulas_agree, "sample_values": sample_values,
+def query_and_value_gradients():
+    """d/dy and d/dxq of the result against central differences (the interpolant's own derivative), also for queries
+    that an extrapolation mode maps into the range"""
+    bad = []
+    x = torch.tensor([0.5, 0.9, 1.4, 2.5], dtype=DT)
+    xq0 = torch.tensor([0.7, 1.0, 2.2, 2.95, 4.65, -0.33, 0.13], dtype=DT)   # mapped positions stay clear of the knots
+    w = torch.tensor([1.0, -0.5, 2.0, 0.7, -1.2, 0.9, 1.5], dtype=DT)
+    for method, opts in (("linear", {}), ("cspline", {"bc_type": "natural"})):
+        for mode in (None, "bound", "mirror", "periodic"):
+            y0 = torch.tensor(_y(x.numpy(), mode == "periodic"), dtype=DT)
+            xq_use = xq0 if mode is not None else xq0[:3]
+            wu = w[:len(xq_use)]
+
+            def f(xq, y):
+                kw = dict(opts)
+                if mode is not None:
+                    kw["extrap"] = mode
+                return (Interp1D(x, y, method=method, assume_sorted=True, **kw)(xq) * wu).sum()
+            xq = xq_use.clone().requires_grad_()
+            y = y0.clone().requires_grad_()
+            gq, gy = torch.autograd.grad(f(xq, y), (xq, y), allow_unused=True)
+            h = 1e-6
+            for nm, g, base, other in (("xq", gq, xq_use, None), ("y", gy, y0, None)):
+                if g is None:
+                    bad.append("%s extrap=%s: no gradient w.r.t. %s" % (method, mode, nm))
+                    continue
+                num = torch.zeros_like(base)
+                for i in range(len(base)):
+                    d = torch.zeros_like(base)
+                    d[i] = h
+                    if nm == "xq":
+                        num[i] = (f(base + d, y0) - f(base - d, y0)) / (2 * h)
+                    else:
+                        if mode == "periodic" and i in (0, len(base) - 1):
+                            num[i] = g[i].detach()      # the end values are tied by the periodicity requirement
+                            continue
+                        num[i] = (f(xq_use, base + d) - f(xq_use, base - d)) / (2 * h)
+                err = (g.detach() - num).abs().max().item()
+                if not err <= 1e-5 * max(1.0, num.abs().max().item()):
+                    bad.append("%s extrap=%s: d/d%s differs from central differences by %.2e (autograd %s, numerical %s)" % (
+                        method, mode, nm, err, [round(v, 5) for v in g.tolist()], [round(v, 5) for v in num.tolist()]))
+    return "; ".join(bad[:3]) if bad else None
+
+
+TABLE = {"query_and_value_gradients": query_and_value_gradients,
+         "against_reference_splines": against_reference_splines, "both_formulas_agree": both_formulas_agree, "sample_values": sample_values,
          "ordering_and_late_y": ordering_and_late_y, "extrapolation_modes": extrapolation_modes}
 
 if __name__ == "__main__":
